@@ -102,7 +102,16 @@ RULE = ("Case = equilibrium + point set + profiles. Equilibria: bundled example 
         "mapped function are evaluated again and map2d is rebuilt - all bit identical; vectors handed out earlier are compared with "
         "their snapshots before anything is re-evaluated. (d) caller-owned ndarrays (constructor arguments, profile arrays, the outside "
         "Vector3D) must be bit-identical and writeable after the call and are then overwritten, so that any later use shows up. "
-        "(e) api exercises every attribute and class of efit.pyx / example.py / the Generomak loader (list in REQUIRED_LABELS).")
+        "(e) api exercises every attribute and class of efit.pyx / example.py / the Generomak loader (list in REQUIRED_LABELS). "
+        "interfere (state leaking between objects or calls): two equilibria A and B with independently generated parameters are "
+        "constructed afresh in one case (never from the cache) and are alive together. Order 1: A's four mapped functions and all its "
+        "direct functions are evaluated, B is built and checked with the full scalar / vector / basis oracles (part of B's points are "
+        "A's coordinates; optionally the very same profile objects are mapped onto both), then A must answer bit for bit as before and "
+        "pass its own oracles. Order 2: A is not evaluated until B has been built and used. REPEAT / X-Y-X on A: the same evaluation "
+        "twice in a row, profile set Y mapped and evaluated on more (+150) and fewer (3) points, X mapped again from new profile "
+        "objects and the very first functions asked again - all bit identical, Vector3D objects handed out earlier intact, caller "
+        "arrays unchanged. Ten helper-class instances (two of each class) coexist and are evaluated alternately, compared with instances "
+        "used alone. example_equilibrium(), load_equilibrium(), example_equilibrium() again. Non-trivial (interfere) = A and B differ.")
 ASSUMPTIONS = [
     "inside the LCFS = inside the lcfs_polygon given to the constructor (crossing number, my own) AND psi_normalised <= 1 "
     "(the EFITLCFSMask definition quoted in the property's mechanism); points closer than 1e-9*size to a polygon edge accept either",
@@ -189,6 +198,9 @@ REQUIRED_LABELS = [l for l in [
     "api:entry:inside_limiter:none", "api:entry:f_profile", "api:entry:q", "api:entry:psin_to_r", "api:entry:example_equilibrium",
     "api:entry:load_equilibrium", "api:entry:EFITLCFSMask", "api:entry:MagneticField", "api:entry:PoloidalFieldVector",
     "api:entry:FluxSurfaceNormal", "api:entry:FluxCoordToCartesian",
+    # state leaking between objects / calls
+    "interfere:interference:A-then-B", "interfere:interference:B-before-A-first-use", "interfere:shared-profile-object",
+    "interfere:repeat", "interfere:x-y-x", "interfere:helpers-interleaved", "interfere:loaders-x-y-x", "interfere:caller-arrays",
 ] + ([] if EXCLUDE_FLOAT else ["vector:profile:float"]) + ([] if EXCLUDE_ALIAS else ["vector:mutate-returned", "basis:mutate-returned"])
  if not _ONLY or l.split(":")[0] in _ONLY]
 
@@ -318,9 +330,9 @@ def _outside(draw):
 
 
 @st.composite
-def scalar_strategy(draw):
-    d = {"eq": draw(eq_spec())}
-    d.update(draw(points_spec()))
+def scalar_strategy(draw, eq=None, nmax=160):
+    d = {"eq": eq if eq is not None else draw(eq_spec())}
+    d.update(draw(points_spec(nmax=nmax)))
     d["profiles"] = [{"p": draw(profile_spec()), "out": _outside(draw), "default_out": draw(st.integers(0, 5)) == 0,
                       "out_form": draw(st.sampled_from(["float", "float", "int", "kw"]))}
                      for _ in range(draw(st.integers(1, 3)))]
@@ -328,18 +340,18 @@ def scalar_strategy(draw):
 
 
 @st.composite
-def basis_strategy(draw):
-    d = {"eq": draw(eq_spec())}
-    d.update(draw(points_spec()))
+def basis_strategy(draw, eq=None, nmax=160):
+    d = {"eq": eq if eq is not None else draw(eq_spec())}
+    d.update(draw(points_spec(nmax=nmax)))
     d["nodes"] = [[draw(st.floats(0.0, 1.0)), draw(st.floats(0.0, 1.0))] for _ in range(draw(st.integers(4, 24)))]
     d["mutate"] = False if EXCLUDE_ALIAS else draw(st.booleans())   # modify a returned toroidal vector in place, ask again
     return d
 
 
 @st.composite
-def vector_strategy(draw):
-    d = {"eq": draw(eq_spec())}
-    d.update(draw(points_spec()))
+def vector_strategy(draw, eq=None, nmax=160):
+    d = {"eq": eq if eq is not None else draw(eq_spec())}
+    d.update(draw(points_spec(nmax=nmax)))
     d["vt"], d["vp"], d["vn"] = draw(profile_spec()), draw(profile_spec()), draw(profile_spec(allow_float=True))
     d["out"] = draw(st.one_of(st.none(), st.none(), st.lists(st.sampled_from([0.0, 1.0, -2.5, 1e4]), min_size=3, max_size=3),
                               st.lists(st.floats(-1e3, 1e3), min_size=3, max_size=3)))
@@ -362,6 +374,20 @@ def api_strategy(draw):
                  for _ in range(draw(st.integers(2, 5)))]
     d["comp"] = [draw(profile_spec()) for _ in range(3)]
     d["mf"] = [draw(st.floats(-5.0, 5.0)) for _ in range(6)]
+    return d
+
+
+@st.composite
+def interfere_strategy(draw):
+    """Two equilibria A and B alive at once (B's parameters are part of the case), each with its own scalar / basis / vector
+    sub-case; a second profile set Y for the X-Y-X sequence on A."""
+    d = {"order": draw(st.sampled_from([1, 1, 2])), "loaders": draw(st.integers(0, 3)) == 0, "share": draw(st.booleans())}
+    for k in ("A", "B"):
+        eq = draw(eq_spec(max_rays=96))
+        d[k] = {"s": draw(scalar_strategy(eq=eq, nmax=60)), "b": draw(basis_strategy(eq=eq, nmax=40)), "v": draw(vector_strategy(eq=eq, nmax=40))}
+    d["Y"] = {"p": draw(profile_spec()), "out": _outside(draw), "vt": draw(profile_spec()), "vp": draw(profile_spec()), "vn": draw(profile_spec())}
+    d["fields"] = [[draw(st.sampled_from(_MAGIC)) for _ in range(3)] for _ in range(2)]
+    d["psin"] = [draw(st.sampled_from([0.0, 0.5, 1.0, 1.5])), draw(st.floats(0.0, 1.5))]
     return d
 
 
@@ -521,9 +547,10 @@ def check_owned(ctx, owned, what):
         x[...] = -3.0 * x - 7.0
 
 
-def get_bundle(spec, ctx):
+def get_bundle(spec, ctx, fresh=False):
+    """fresh=True: a new object is constructed now and not shared through the cache (interference sub-check)."""
     key = canon(spec)
-    if key in _CACHE:
+    if key in _CACHE and not fresh:
         _CACHE.move_to_end(key)
         return _CACHE[key]
     b = Bundle()
@@ -581,6 +608,8 @@ def get_bundle(spec, ctx):
         if e:
             e = np.array(sorted(e))
             b.diag = (b.poly[e[:, 0]], b.poly[e[:, 1]])
+    if fresh:
+        return b
     _CACHE[key] = b
     while len(_CACHE) > _CACHE_MAX:
         _CACHE.popitem(last=False)
@@ -637,7 +666,7 @@ def make_points(case, b):
         t, a1, a2 = p[0], p[1], p[2]
         if t == "u":
             out.append((rmin + a1 * sr, zmin + a2 * sz, p[3]))
-        elif t == "probe":
+        elif t in ("probe", "abs"):      # absolute coordinates ("abs": another equilibrium's points, clipped to this grid)
             out.append((a1, a2, p[3]))
         elif t == "mid":
             out.append((rmin + a1 * sr, b.axis[1] if b.axis[1] != 0.0 else a2, p[3]))
@@ -885,8 +914,8 @@ def _own_basis(bv):
 
 
 # ================================================================================================ scalar
-def run_scalar(case, ctx):
-    b = get_bundle(case["eq"], ctx)
+def run_scalar(case, ctx, bundle=None):
+    b = bundle if bundle is not None else get_bundle(case["eq"], ctx)
     eq = b.eq
     _eq_labels(ctx, b)
     r, z, phi, ok3 = make_points(case, b)
@@ -1015,8 +1044,8 @@ def run_scalar(case, ctx):
 
 
 # ================================================================================================ basis
-def run_basis(case, ctx):
-    b = get_bundle(case["eq"], ctx)
+def run_basis(case, ctx, bundle=None):
+    b = bundle if bundle is not None else get_bundle(case["eq"], ctx)
     eq = b.eq
     _eq_labels(ctx, b)
     r, z, phi, ok3 = make_points(case, b)
@@ -1117,8 +1146,8 @@ def run_basis(case, ctx):
 
 
 # ================================================================================================ vector
-def run_vector(case, ctx):
-    b = get_bundle(case["eq"], ctx)
+def run_vector(case, ctx, bundle=None):
+    b = bundle if bundle is not None else get_bundle(case["eq"], ctx)
     eq = b.eq
     _eq_labels(ctx, b)
     r, z, phi, ok3 = make_points(case, b)
@@ -1416,9 +1445,202 @@ def run_api(case, ctx):
     ctx.nt(bool((inside & ~either).any() and (~inside & ~either).any()))
 
 
+# ================================================================================================ interference / repeat
+def _make_funcs(ctx, b, ps, out, vs, vout, objs=None):
+    """The four mapped functions of equilibrium b for scalar profile spec ps and vector profile specs vs (fresh profile objects
+    unless objs is given).  Caller-owned arrays are checked (and then overwritten) right after the calls."""
+    built = objs if objs is not None else [build_profile(x) for x in [ps] + list(vs)]
+    o = [x[0] for x in built]
+    with ctx.cut("map2d/map3d/map_vector2d/map_vector3d construction"):
+        if vout is None:
+            f = dict(f2=b.eq.map2d(o[0], out), f3=b.eq.map3d(o[0], out), v2=b.eq.map_vector2d(o[1], o[2], o[3]), v3=b.eq.map_vector3d(o[1], o[2], o[3]))
+        else:
+            f = dict(f2=b.eq.map2d(o[0], out), f3=b.eq.map3d(o[0], out), v2=b.eq.map_vector2d(o[1], o[2], o[3], Vector3D(*vout)),
+                     v3=b.eq.map_vector3d(o[1], o[2], o[3], Vector3D(*vout)))
+    if objs is None:
+        owned = [x[5] for x in built if x[5] is not None]
+        if owned:
+            check_owned(ctx, owned, "map2d/map3d/map_vector2d/map_vector3d")
+            ctx.label("caller-arrays")
+    return f, built
+
+
+def _eval_funcs(ctx, b, f, r, z, phi, ok3, direct=True):
+    """Everything observable at the points, as plain tuples (bit comparison), plus the Vector3D objects handed out.
+    ZeroDivisionError (degenerate points, see run_basis) is recorded as a value: it must come back the same way."""
+    eq = b.eq
+    vals, objs = [], []
+
+    def vec(fn, *a):
+        try:
+            with ctx.cut("evaluation", allowed=(ZeroDivisionError,)):
+                v = fn(*a)
+        except ZeroDivisionError:
+            return "ZeroDivisionError"
+        t = (v.x, v.y, v.z)
+        objs.append((v, t))
+        return t
+    for i in range(len(r)):
+        ri, zi = float(r[i]), float(z[i])
+        with ctx.cut("evaluation"):
+            row = [f["f2"](ri, zi)]
+            if direct:
+                row += [eq.psi_normalised(ri, zi), eq.psi(ri, zi), eq.inside_lcfs(ri, zi)]
+        row.append(vec(f["v2"], ri, zi))
+        if direct:
+            row += [vec(eq.b_field, ri, zi), vec(eq.toroidal_vector, ri, zi), vec(eq.poloidal_vector, ri, zi), vec(eq.surface_normal, ri, zi)]
+        if ok3[i]:
+            xi, yi = xy_of(ri, float(phi[i]))
+            with ctx.cut("evaluation"):
+                row.append(f["f3"](xi, yi, zi))
+            row.append(vec(f["v3"], xi, yi, zi))
+        vals.append(tuple(row))
+    if direct:
+        with ctx.cut("evaluation"):
+            vals.append((eq.f_profile(0.5), eq.q(0.25), eq.psi_axis, eq.psi_lcfs, tuple(eq.r_range), tuple(eq.z_range), eq.magnetic_axis.x, eq.magnetic_axis.y))
+    return vals, objs
+
+
+def _first_diff(a, b_):
+    for i, (x, y) in enumerate(zip(a, b_)):
+        if x != y:
+            return "entry %d: %r != %r" % (i, x, y)
+    return "lengths %d / %d" % (len(a), len(b_))
+
+
+def _intact(ctx, objs, what):
+    bad = [(t, (v.x, v.y, v.z)) for v, t in objs if (v.x, v.y, v.z) != t]
+    ctx.check(not bad, "repeat", lambda: "%s: a Vector3D returned earlier changed from %r to %r" % (what, bad[0][0], bad[0][1]))
+
+
+def run_interfere(case, ctx):
+    ca, cb = case["A"], case["B"]
+    a = get_bundle(ca["s"]["eq"], ctx, fresh=True)
+    r, z, phi, ok3 = make_points(ca["s"], a)
+    xs = ca["s"]["profiles"][0]
+    xv = (ca["v"]["vt"], ca["v"]["vp"], ca["v"]["vn"])
+    xout, xvout = float(xs["out"]), ca["v"]["out"]
+    fa, built_x = _make_funcs(ctx, a, xs["p"], xout, xv, xvout)
+    order = case["order"]
+    if order == 1:       # A is used, then B is built and used, then A must answer exactly as before
+        s1, objs1 = _eval_funcs(ctx, a, fa, r, z, phi, ok3)
+        ctx.label("interference:A-then-B")
+    else:                # A exists but is not evaluated before B has been built and used
+        ctx.label("interference:B-before-A-first-use")
+    # ---- B: other parameters, same way of construction; part of its points are A's coordinates (memo keyed on the point only)
+    b = get_bundle(cb["s"]["eq"], ctx, fresh=True)
+    extra = [["abs", float(r[i]), float(z[i]), float(phi[i])] for i in range(0, len(r), 5)][:16]
+    for k in ("s", "b", "v"):
+        cb[k] = dict(cb[k], pts=list(cb[k]["pts"]) + extra)
+    if case["share"]:    # the very same profile objects mapped onto both equilibria (one Te(psi_n) function, two time slices)
+        callables = [x if not isinstance(x[0], (list, tuple, np.ndarray)) else build_profile(sp) for x, sp in zip(built_x, [xs["p"]] + list(xv))]
+        fb, _ = _make_funcs(ctx, b, None, xout, None, xvout, objs=callables)
+        rb, zb, pb, ob = make_points(cb["s"], b)
+        psin_b = _psin(ctx, b, rb, zb)
+        inside_b, _, amb_b, known_b = classify(b, rb, zb, psin_b)
+        ref, scale = built_x[0][1], max(built_x[0][3], abs(xout))
+        for i in range(len(rb)):
+            if amb_b[i] or known_b[i]:
+                continue
+            with ctx.cut("evaluation"):
+                got = fb["f2"](float(rb[i]), float(zb[i]))
+            want = ref(float(psin_b[i])) if inside_b[i] else xout
+            ctx.check(abs(got - want) <= 1e-12 * scale if inside_b[i] else got == want, "interference",
+                      lambda: "the profile object already mapped onto equilibrium A, mapped onto B: map2d(..)(%r, %r) = %r, expected %r (psi_n = %r, "
+                      "inside %s) [A=%s B=%s]" % (float(rb[i]), float(zb[i]), got, want, float(psin_b[i]), bool(inside_b[i]),
+                                                   json.dumps(a.spec), json.dumps(b.spec)))
+        ctx.label("shared-profile-object")
+    run_scalar(cb["s"], ctx, bundle=b)          # B against the independent oracles while A is alive (and, order 1, already used)
+    run_vector(cb["v"], ctx, bundle=b)
+    run_basis(cb["b"], ctx, bundle=b)
+    if order == 1:
+        s2, _ = _eval_funcs(ctx, a, fa, r, z, phi, ok3)
+        ctx.check(s1 == s2, "interference", lambda: "equilibrium A answers differently after equilibrium B was built and used: %s [A=%s B=%s]"
+                  % (_first_diff(s1, s2), json.dumps(a.spec), json.dumps(b.spec)))
+        _intact(ctx, objs1, "after B was built and used")
+    run_scalar(ca["s"], ctx, bundle=a)          # A against the independent oracles after (order 2: only after) B was used
+    run_vector(ca["v"], ctx, bundle=a)
+    run_basis(ca["b"], ctx, bundle=a)
+    # ---- REPEAT and X - Y - X on A: same call twice in a row; other profiles, more and fewer points in between; X again
+    x1, ox1 = _eval_funcs(ctx, a, fa, r, z, phi, ok3, direct=False)
+    x1b, _ = _eval_funcs(ctx, a, fa, r, z, phi, ok3, direct=False)
+    ctx.check(x1 == x1b, "repeat", lambda: "the same mapped functions evaluated twice in a row differ: %s" % _first_diff(x1, x1b))
+    y = case["Y"]
+    fy, _ = _make_funcs(ctx, a, y["p"], float(y["out"]), (y["vt"], y["vp"], y["vn"]), None)
+    rd, zd = _dense(ca["s"], a)
+    big_r, big_z = np.concatenate([r, rd[:150]]), np.concatenate([z, zd[:150]])
+    _eval_funcs(ctx, a, fy, big_r, big_z, np.zeros(len(big_r)), np.ones(len(big_r), dtype=bool) & (big_r > a.r[0] * (1 + 1e-9)) & (big_r < a.r[-1] * (1 - 1e-9)), direct=False)
+    _eval_funcs(ctx, a, fy, r[:3], z[:3], phi[:3], ok3[:3], direct=False)
+    fx2, _ = _make_funcs(ctx, a, xs["p"], xout, xv, xvout)        # X again: new profile objects, new mapped functions
+    x2, _ = _eval_funcs(ctx, a, fx2, r, z, phi, ok3, direct=False)
+    x3, _ = _eval_funcs(ctx, a, fa, r, z, phi, ok3, direct=False)  # and the functions made at the very beginning
+    ctx.check(x1 == x2, "x-y-x", lambda: "map2d/map3d/map_vector2d/map_vector3d for profile X, then Y, then X again: %s [X=%s Y=%s]"
+              % (_first_diff(x1, x2), json.dumps(xs["p"]), json.dumps(y["p"])))
+    ctx.check(x1 == x3, "repeat", lambda: "the first mapped functions answer differently after other profiles were mapped and evaluated: %s" % _first_diff(x1, x3))
+    _intact(ctx, ox1, "after Y was mapped and evaluated")
+    ctx.label("repeat", "x-y-x")
+    # ---- helper classes: two instances of each built first, then evaluated alternately, twice
+    (ax, ay, az), (bx, by, bz) = case["fields"]
+    pa, pb = [min(float(v), 1.0) for v in case["psin"]]
+    fl_a, fl_b = (lambda r_, z_: Vector3D(ax, ay, az)), (lambda r_, z_: Vector3D(bx, by, bz))
+    def make():
+        return [(PoloidalFieldVector(fl_a), PoloidalFieldVector(fl_b)), (FluxSurfaceNormal(fl_a), FluxSurfaceNormal(fl_b)),
+                (FluxCoordToCartesian(fl_a, lambda r_, z_: pa, built_x[1][1], built_x[2][1], built_x[3][1]),
+                 FluxCoordToCartesian(fl_b, lambda r_, z_: pb, built_x[3][1], built_x[1][1], built_x[2][1])),
+                (MagneticField(lambda r_, z_: pa, lambda r_, z_: ax, lambda r_, z_: az, lambda x_: ay, 1.0, 2.0, lambda r_, z_: 1.0),
+                 MagneticField(lambda r_, z_: pb, lambda r_, z_: bx, lambda r_, z_: bz, lambda x_: by, 3.0, 4.0, lambda r_, z_: 0.0)),
+                (EFITLCFSMask([[0, 0], [2, 0], [2, 1], [0, 1.0]], lambda r_, z_: pa), EFITLCFSMask([[0, 0], [1, 0], [1, 3], [0, 3.0]], lambda r_, z_: pb + 0.75))]
+
+    def one(v):
+        try:
+            q = v(1.5, 0.25)
+        except ZeroDivisionError:      # |B_pol|^2 underflow of the 1e-100 magic values, see run_basis
+            return "ZeroDivisionError"
+        return q if isinstance(q, float) else (q.x, q.y, q.z)
+    with ctx.cut("helper classes"):
+        alone = []                     # reference: every instance evaluated right after its construction, before the next one exists
+        for k in range(5):
+            pair = make()[k]
+            alone.append((one(pair[0]), None))
+        for k in range(5):
+            pair = make()[k]
+            alone[k] = (alone[k][0], one(pair[1]))
+        inst = make()                  # all ten instances alive, evaluated alternately, twice
+        passes = [[(one(i0), one(i1)) for i0, i1 in inst] for _ in range(2)]
+    ctx.check(passes[0] == passes[1], "interference", lambda: "helper-class instances evaluated alternately give different values on the second pass: %s"
+              % _first_diff(passes[0], passes[1]))
+    ctx.check(passes[0] == alone, "interference", lambda: "helper-class instances that coexist differ from instances used alone: %s (fields %r, psi_n %r)"
+              % (_first_diff(passes[0], alone), case["fields"], case["psin"]))
+    ctx.label("helpers-interleaved")
+    # ---- function-style entry points: X, Y, X
+    if case["loaders"]:
+        pts_e = [(2.0, 0.0), (2.3, 0.4), (1.3, -1.2), (1.9, -0.9)]
+        pts_g = [(1.6, -0.1), (1.2, 0.5), (2.2, -1.5)]
+        with ctx.cut("loaders"):
+            e1 = example_equilibrium()
+            v1 = [(e1.psi_normalised(*q), e1.inside_lcfs(*q), one_b(e1, q)) for q in pts_e]
+            g = load_equilibrium()
+            vg = [(g.psi_normalised(*q), g.inside_lcfs(*q), one_b(g, q)) for q in pts_g]
+            e2 = example_equilibrium()
+            v2 = [(e2.psi_normalised(*q), e2.inside_lcfs(*q), one_b(e2, q)) for q in pts_e]
+            v1b = [(e1.psi_normalised(*q), e1.inside_lcfs(*q), one_b(e1, q)) for q in pts_e]
+            vgb = [(g.psi_normalised(*q), g.inside_lcfs(*q), one_b(g, q)) for q in pts_g]
+        ctx.check(v1 == v2 and v1 == v1b and vg == vgb and e1 is not e2, "x-y-x", lambda: "example_equilibrium(), load_equilibrium(), example_equilibrium(): "
+                  "%r / %r / %r (first object again) ; generomak %r / %r" % (v1, v2, v1b, vg, vgb))
+        ctx.label("loaders-x-y-x")
+    ctx.nontrivial = False
+    ctx.nt(canon(a.spec) != canon(b.spec))
+
+
+def one_b(eq, q):
+    v = eq.b_field(*q)
+    return (v.x, v.y, v.z)
+
+
 SUBCHECKS = {
     "scalar": Given(scalar_strategy, run_scalar, quick=480, thorough=16000),
     "basis": Given(basis_strategy, run_basis, quick=240, thorough=8000),
     "vector": Given(vector_strategy, run_vector, quick=240, thorough=8000),
     "api": Given(api_strategy, run_api, quick=120, thorough=3000),
+    "interfere": Given(interfere_strategy, run_interfere, quick=48, thorough=1200),
 }
